@@ -32,7 +32,8 @@ Kinds == { "nil", "bool", "int", "int_neg", "int8", "int64", "uint", "uint8", "f
            "ptr_map", "ptr_array", "ptr_str", "ptr_int", "nil_func", "nilptr_time", "ptr_time", "struct_embedded_nil", "slice_stringer", "slice_ptr_struct",
            "float_nan", "map_float_nan", "struct_iface_slice", "nilptr_stringer", "ptr_stringer", "str_mb", "int3",
            "nilptr_htmler", "nilptr_interfaceable", "struct_promotes_nil_ptr", "struct_promotes_nil_iface",
-           "func_void", "func_void_variadic", "slice_stringer1", "map_str_error", "map_stringer_int" }
+           "func_void", "func_void_variadic", "slice_stringer1", "map_str_error", "map_stringer_int",
+           "struct_embeds_nil_time", "struct_embeds_nil_stringer", "struct_embeds_nil_htmler", "ptr_struct_embeds_nil_duration" }
 
 Ops == { <<"+">>, <<"-">>, <<"*">>, <<"/">>, <<"<">>, <<"<=">>, <<">">>, <<">=">>, <<"==">>, <<"!=">>, <<"~=">>, <<"AMP", "AMP">>, <<"||">> }
 Names == { "a", "b", "c", "x", "k", "v", "p" }
